@@ -127,6 +127,17 @@ func runScript(c *hx.Ctx, r *hx.Rng, k fsCase, fsys filesystem.FileSystem, deadl
 					}
 				}
 			}
+			// top up with one-block files so that the very last free cluster / block is handed out too
+			misses := 0
+			for i := 0; i < 20000 && misses < 3 && time.Now().Before(deadline); i++ {
+				ops++
+				if err := writeFile(fsys, fmt.Sprintf("%st%d_%d.bin", pfx, round, i), r.Bytes(600)); err != nil {
+					sawErr = true
+					misses++
+				} else {
+					misses = 0
+				}
+			}
 			for i := 0; i < 40; i += 2 {
 				ops++
 				_ = fsys.Remove(fmt.Sprintf("%sf%d_%d.bin", pfx, round, i))
@@ -402,6 +413,7 @@ func Run(c *hx.Ctx) {
 	}
 	wg.Wait()
 	tables(c)
+	fatLog(c)
 }
 
 func safely(f func() error) (err error) {
